@@ -102,15 +102,36 @@ def c02(ctx):
             ctx.sample({"system": name, "a": pairs[0][0], "b": pairs[0][1], "go": got[0], "spec": want[0]})
 
 
+def _c10_dom(dump):
+    """c10_family_dom of coq/Semver/ParseRoundtrip_proofs.v on a dumped version: no wildcard, or a
+    wildcard version without prerelease whose numbers after the first wildcard are zero"""
+    nums, pre = dump[4], dump[5]
+    if -1 not in nums:
+        return True
+    i = nums.index(-1)
+    return len(pre) == 0 and all(x == 0 for x in nums[i + 1:])
+
+
+def _c10_hit(ctx, fid, what, inp, observed=None, required=None):
+    import lib as _lib
+    known = {k["id"] for k in _lib.load_known(ctx.pid) if k.get("status") == "open"}
+    if fid in known:
+        ctx.known_hits[fid] = ctx.known_hits.get(fid, 0) + 1
+    else:
+        ctx.violation(what, inp, observed=observed, required=required)
+
+
 def c10(ctx):
     rng = ctx.rng
     n = ctx.scale(2500, 60000)
     for sysi in FAMILY:
         name = versions.SYSTEMS[sysi]
-        strs = sorted({versions.gen(rng, sysi) for _ in range(n)} | {b"1.*", b"1.x", b"*", b"1.2.*", b"v1.2.3-A.b+B"})
+        strs = sorted({versions.gen(rng, sysi) for _ in range(n)} | {b"1.*", b"1.x", b"*", b"1.2.*", b"v1.2.3-A.b+B",
+                                                                     b"1.*.3", b"1.*-a", b"1.x.0", b"1.*.*", b"*-a+b"})
         outs = ctx.impl("sv_canon", [sx([sysi, s]) for s in strs])
         margs, mwant = [], []
         bycanon = {}
+        outdom = set()
         acc = 0
         for s, o in zip(strs, outs):
             r = parse_sx(o)
@@ -125,9 +146,17 @@ def c10(ctx):
                 ctx.violation("%s: canonical string does not parse" % name, {"system": name, "version": s, "canon": c1})
                 continue
             _, dump2, cmp_, c2 = re
+            if not _c10_dom(dump):
+                outdom.add(s)
+                if cmp_ == 0:   # C10_family_reparse_exact: outside the domain the clause fails
+                    ctx.divergence("c10 domain", {"system": name, "version": s}, "cmp 0", "non-zero by C10_family_reparse_exact")
             if cmp_ != 0:
-                ctx.violation("%s: canonical string denotes a different version" % name,
-                              {"system": name, "version": s, "canon": c1}, observed=cmp_, required=0)
+                if s in outdom:
+                    _c10_hit(ctx, "F-C10-24", "%s: canonical string denotes a different version" % name,
+                             {"system": name, "version": s, "canon": c1}, observed=cmp_, required=0)
+                else:
+                    ctx.violation("%s: canonical string denotes a different version" % name,
+                                  {"system": name, "version": s, "canon": c1}, observed=cmp_, required=0)
             if c2 != c1:
                 ctx.violation("%s: canonicalising again changes the string" % name,
                               {"system": name, "version": s, "canon": c1, "canon2": c2})
@@ -141,8 +170,12 @@ def c10(ctx):
         res = ctx.impl("sv_syscompare", [sx([sysi, a, b]) for a, b in pairs])
         for (a, b), r in zip(pairs, res):
             if r != "0":
-                ctx.violation("%s: two versions with the same canonical string compare different" % name,
-                              {"system": name, "a": a, "b": b}, observed=r, required=0)
+                if a in outdom or b in outdom:
+                    _c10_hit(ctx, "F-C10-24", "%s: two versions with the same canonical string compare different" % name,
+                             {"system": name, "a": a, "b": b}, observed=r, required=0)
+                else:
+                    ctx.violation("%s: two versions with the same canonical string compare different" % name,
+                                  {"system": name, "a": a, "b": b}, observed=r, required=0)
         ctx.count("c10:%s:same_canon_pairs" % name, len(pairs))
         mo = ctx.model("svm_canon", margs)
         nd = 0
